@@ -2002,6 +2002,8 @@ func (f *formatter) NameName(n *ast.Name) {
 			separatorTkns[i] = f.newToken(token.T_NS_SEPARATOR, []byte("\\"))
 		}
 	}
+
+	n.SeparatorTkns = separatorTkns
 }
 
 func (f *formatter) NameFullyQualified(n *ast.NameFullyQualified) {
@@ -2015,6 +2017,8 @@ func (f *formatter) NameFullyQualified(n *ast.NameFullyQualified) {
 			separatorTkns[i] = f.newToken(token.T_NS_SEPARATOR, []byte("\\"))
 		}
 	}
+
+	n.SeparatorTkns = separatorTkns
 }
 
 func (f *formatter) NameRelative(n *ast.NameRelative) {
@@ -2029,6 +2033,8 @@ func (f *formatter) NameRelative(n *ast.NameRelative) {
 			separatorTkns[i] = f.newToken(token.T_NS_SEPARATOR, []byte("\\"))
 		}
 	}
+
+	n.SeparatorTkns = separatorTkns
 }
 
 func (f *formatter) NameNamePart(n *ast.NamePart) {
